@@ -114,11 +114,54 @@ def check(run):
     run.floor('R13e', 2)
 
 
+def _targs(ty, start):
+    """top-level template arguments of the template-id opening at ty[start] == '<'"""
+    out, depth, cur = [], 0, ''
+    for ch in ty[start:]:
+        if ch == '<':
+            depth += 1
+            if depth == 1:
+                continue
+        elif ch == '>':
+            depth -= 1
+            if depth == 0:
+                out.append(cur.strip())
+                return out
+        elif ch == ',' and depth == 1:
+            out.append(cur.strip())
+            cur = ''
+            continue
+        cur += ch
+    return out
+
+
+def address_ordered(ty):
+    """ty names an ordered associative container whose key is a raw or smart
+    pointer and whose comparator is the default: iteration order is the order
+    of the heap addresses"""
+    for m in re.finditer(r'std::(multi)?(map|set)<', ty):
+        a = _targs(ty, m.end() - 1)
+        if not a:
+            continue
+        key = a[0].replace('const', '').strip()
+        cmp_i = 2 if m.group(2) == 'map' else 1
+        cmp_ = a[cmp_i] if len(a) > cmp_i else ''
+        if cmp_ and not re.match(r'std::(less|greater)<', cmp_):
+            continue
+        if key.endswith('*') or re.match(r'std::(shared_ptr|unique_ptr|weak_ptr)<', key):
+            return True
+    return False
+
+
 def r13b(run, OUTPUT_ONLY, with_library_tables=True):
     fx = run.fx
     # R13b: iteration over hash-ordered or address-ordered containers
     run.clause('R13b no iteration over unordered or pointer-keyed containers outside output-only functions')
-    PTRKEY = re.compile(r'std::(multi)?(map|set)<[^,<>]*\*')
+    class _PK:
+        @staticmethod
+        def search(ty):
+            return address_ordered(ty)
+    PTRKEY = _PK
     sites = 0
     for fn in fx.repo_functions():
         top = q.top_function(fx, fn)
@@ -133,6 +176,9 @@ def r13b(run, OUTPUT_ONLY, with_library_tables=True):
                 what = (n.get('callee') or '').split('::')[-1] + '()'
             if ty is None:
                 continue
+            cty = fn.cty(n['range'] if what == 'range-for' else n['obj'])
+            if not ('unordered_' in ty or PTRKEY.search(ty)) and ('unordered_' in cty or PTRKEY.search(cty)):
+                ty = cty
             if 'unordered_' in ty or PTRKEY.search(ty):
                 sites += 1
                 # begin()/end() used only as the sentinel of a find() comparison is not iteration
@@ -155,7 +201,7 @@ def r13b(run, OUTPUT_ONLY, with_library_tables=True):
     # container inventory (fields): every unordered / pointer-keyed container field is listed
     for r in lib_records(fx):
         for f in r['fields']:
-            if 'unordered_' in f['ty'] or PTRKEY.search(f['ty']):
+            if 'unordered_' in f['ty'] or PTRKEY.search(f['ty']) or PTRKEY.search(f.get('cty') or ''):
                 run.ok('R13b', 'inventory', r['norm'] + '::' + f['name'], '%s:%d' % (r['file'], f['line']), 'hash/address-ordered container; iteration sites checked above', nontrivial=False)
 
 
